@@ -1,6 +1,7 @@
 package main
 
 import (
+	"go/constant"
 	"go/token"
 	"go/types"
 	"strings"
@@ -528,7 +529,7 @@ func ruleDoBounded(c *Ctx, r *R) {
 						why = "spawn bound may be parameter " + x.Name()
 					}
 				case *ssa.Call:
-					if cal := x.Call.StaticCallee(); cal != nil && fname(cal) == "GOMAXPROCS" && isConstInt(x.Call.Args[0], -1) {
+					if cal := x.Call.StaticCallee(); cal != nil && fname(cal) == "GOMAXPROCS" && isQueryOnlyArg(x.Call.Args[0]) {
 						hasMaxprocs = true
 					} else {
 						good = false
@@ -1132,4 +1133,15 @@ func onlyJumpsBetween(a, b *ssa.BasicBlock) bool {
 		a = a.Succs[0]
 	}
 	return false
+}
+
+
+// isQueryOnlyArg: a constant argument below 1: runtime.GOMAXPROCS(n) with n < 1 only reports the current setting.
+func isQueryOnlyArg(v ssa.Value) bool {
+	k, ok := v.(*ssa.Const)
+	if !ok || k.Value == nil {
+		return false
+	}
+	n, exact := constant.Int64Val(k.Value)
+	return exact && n < 1
 }
